@@ -79,8 +79,7 @@ K05_TreeIsOverlap == last.op = "Tree" =>
 \* C17: the closed formula is the repeated halving the code performs
 K17_CellIsHalving == last.op = "Cell" =>
    BitCell(last.a, last.z, last.mn, last.mx) = CalcBitIndex(last.a, last.z, last.mn, last.mx)
-K17_ByHeight == last.op = "Cell" =>
-   ((last.mx - last.mn) % Pow2(last.z) = 0) =>
+K17_ByHeight == (last.op = "Cell" /\ (last.mx - last.mn) % Pow2(last.z) = 0) =>
       BitCellByHeight(last.a, last.z, last.mn, (last.mx - last.mn) \div Pow2(last.z)) = BitCell(last.a, last.z, last.mn, last.mx)
 K17_InRange == last.op = "Cell" =>
    LET c == BitCell(last.a, last.z, last.mn, last.mx) IN 0 <= c /\ c <= Pow2(last.z) - 1
